@@ -44,3 +44,11 @@ package evidence
 //@   requires evpool != nil
 //@   modifies *
 //@   atcall Pool.addPendingEvidence requires [onlyNewVerified] !evPending(evpool, ev) && !evCommitted(evpool, ev) && evVerified(evpool, ev)
+//@   ensures [noDuplicateInTheBlock] err == nil ==> len(hashes) == len(evList) && (forall a int, b int :: 0 <= a && a < b && b < len(hashes) ==> hashes[a] != hashes[b])
+//@   loop 1:
+//@     invariant 0 <= iter && iter <= len(evList) && len(hashes) == len(evList) && fresh(hashes)
+//@     invariant forall a int, b int :: 0 <= a && a < b && b < iter ==> hashes[a] != hashes[b]
+//@   loop 2:
+//@     invariant -1 <= i && i < idx && idx < len(hashes) && len(hashes) == len(evList) && fresh(hashes)
+//@     invariant forall k int :: i < k && k < idx ==> hashes[k] != hashes[idx]
+//@     invariant forall a int, b int :: 0 <= a && a < b && b < idx ==> hashes[a] != hashes[b]
